@@ -618,7 +618,7 @@ Section Resolve.
     | DFromField => ["vis"; "ty"; "ident"; "attrs"]
     | DFromVariant => ["discriminant"; "fields"; "ident"; "attrs"]
     | DFromTypeParam => ["bounds"; "default"; "ident"; "attrs"]
-    | DFromAttributes => ["ident"; "attrs"]
+    | DFromAttributes => ["attrs"]             (* a list of attributes has no identifier: `ident` is an ordinary field *)
     end.
 
   (** [ForwardedField::parse_nested] for [attrs] / [data] *)
@@ -714,7 +714,8 @@ Section Resolve.
         else
           let step (acc : list vopts * list err) (rv : rvariant) :=
             let '(vs, errs) := acc in
-            match from_variant cdefault rv with
+            (* the fields of a variant do not inherit the container default: an enum value has no such fields *)
+            match from_variant false rv with
             | (Some v, _) => (vs ++ [v], errs)%list
             | (None, es) => (vs, errs ++ es)%list
             end in
